@@ -60,13 +60,13 @@ pub fn spec(id: &str) -> Option<PropSpec> {
     };
     match id {
         "C06" => Some(base(
-            vec![cs(&AGG, "agg-protocol", 350, 6000, false), cs(&AGG, "agg-direct", 250, 5000, false), cs(&AGG, "agg-every-n", 12, 63 * 6 * 3, false), cs(&AGG, "agg-max-n", 6, 48, false), cs(&CONC, "conc-agg", 100, 1000, false)],
+            vec![cs(&AGG, "agg-protocol", 350, 6000, false), cs(&AGG, "agg-direct", 250, 5000, false), cs(&AGG, "agg-every-n", 12, 63 * 6 * 3, false), cs(&AGG, "agg-max-n", 6, 48, false), cs(&CONC, "conc-agg", 100, 1000, false), cs(&AGG, "agg-block-sizes", 122, 366, true), cs(&AGG, "mixed-blocks", 4, 8, true)],
             "cases = (group, scheme, list length, list kind {exact, permuted, reversed, one of 12 relay perturbations}, repeated-message flag, reference decision) over arrival histories under loss/duplication/reordering with and without de-duplication at the aggregator; \
              class `agg-every-n` walks n = 2..=64; non-trivial = every list other than the exact one",
             vec!["cur-blst"],
         )),
         "C07" => Some(base(
-            vec![cs(&AGG, "multi-protocol", 300, 6000, false), cs(&AGG, "multi-direct", 200, 4000, false), cs(&AGG, "multi-every-n", 10, 63 * 6 * 2, false), cs(&CONC, "conc-multi", 100, 1000, false)],
+            vec![cs(&AGG, "multi-protocol", 300, 6000, false), cs(&AGG, "multi-direct", 200, 4000, false), cs(&AGG, "multi-every-n", 10, 63 * 6 * 2, false), cs(&CONC, "conc-multi", 100, 1000, false), cs(&AGG, "mixed-blocks", 8, 8, true)],
             "cases = (group, scheme in {Basic, PoP}, number of accumulated contributions, arrivals incomplete?, fault-script length) and, per run, every single-signer omission / re-addition / replacement / stranger addition (all positions for n <= 12, sampled above) and another message; non-trivial = runs with lost or duplicated contributions and every negative case",
             vec!["cur-blst"],
         )),
@@ -266,6 +266,7 @@ pub fn spec(id: &str) -> Option<PropSpec> {
                 v.push(cst(&AGG, "agg-protocol", 20, 400, mode));
                 v.push(cst(&AGG, "multi-protocol", 20, 400, mode));
                 v.push(cst(&AGG, "agg-max-n", 6, 24, mode));
+                v.push(cst(&AGG, "agg-block-sizes", 40, 122, mode));
                 v.push(cst(&THRESH, "clean", 20, 400, mode));
                 v.push(cst(&THRESH, "byzantine", 30, 600, mode));
                 v.push(cst(&THRESH, "large", 2, 16, mode));
